@@ -10,12 +10,42 @@ SANITIZE = True
 ENUM = True
 
 ADD, DROP, DESTROY, DESTROY_DELAY, SIZE, DESTROY_CONTAINER, READD = 1, 2, 3, 4, 5, 6, 7
-MODES = [(8, 0), (1, 1), (1, 2), (2, 3), (1, 4)]
+MODES = [(8, 0), (1, 1), (1, 2), (2, 3), (1, 4), (1, 5), (1, 6)]
+CHAIN = [(1, 2), (3, 5), (3, 6)]      # hand a child / a chain of children to the same container
 DELAYS = [0, 3, 100, 150]
 CW = ((12, 0), (3, 2))
 
 
+def gen_chain(rng):
+    """element destructors / callbacks hand children (parent -> child -> grandchild) to the same container, which
+    is then destroyed: every object handed over must be reaped (callback, then destructor) by a sweep of
+    destroyObjects() or of ~DelayedDestructor; no client owners, no throws"""
+    locked = 0 if rng.chance(1, 3) else 1
+    nt = 1 if not locked else rng.weighted([(3, 1), (2, 2)])
+    progs = []
+    for t in range(nt):
+        p = []
+        for _ in range(rng.range(1, 3)):
+            k = rng.weighted([(6, ADD), (2, DESTROY), (1, DESTROY_DELAY), (1, SIZE)])
+            if k == ADD:
+                via_cb = rng.chance(1, 3)
+                m = rng.weighted(CHAIN)
+                p.append([ADD, 0, 0 if via_cb else m, m if via_cb else rng.weighted([(4, 0), (1, 1), (1, 3)])])
+            elif k == DESTROY_DELAY:
+                p.append([k, rng.pick(DELAYS)])
+            else:
+                p.append([k])
+        progs.append(p)
+    if not any(op[0] == ADD for p in progs for op in p):
+        progs[0].insert(0, [ADD, 0, rng.weighted(CHAIN), 0])
+    progs[0].append([DESTROY_CONTAINER])
+    sched = R.any_sched(rng, nt, 80, CW) if rng.chance(1, 2) else []
+    return {'cfg': [locked, 1, 0], 'progs': progs, 'sched': sched}
+
+
 def gen(rng, tier, spec):
+    if rng.chance(1, 6):
+        return gen_chain(rng)
     locked = 0 if rng.chance(1, 4) else 1
     nt = 1 if not locked else rng.weighted([(2, 1), (5, 2), (4, 3)])
     hascb = 1 if rng.chance(3, 5) else 0
@@ -86,7 +116,11 @@ def _scan(case, lines):
             op = progs[t][opidx[t]] if opidx[t] < len(progs[t]) else None
             if op and op[0] == ADD:
                 add_oid[(t, opidx[t])] = v
-    obs = {'bad': [], 'dtor': {}, 'cb': {}, 'slots': {}, 'faults': 0, 'throws': 0}
+    # no client owners, no double adds, no throws: every object that is destroyed was reaped by a sweep, so its
+    # callback ran exactly once before (also for objects handed over by re-entrant destructors / callbacks and
+    # during ~DelayedDestructor)
+    strict = hascb and nthrow == 0 and not any(op[0] == READD or (op[0] == ADD and op[1] != 0) for p in progs for op in p)
+    obs = {'bad': [], 'dtor': {}, 'cb': {}, 'slots': {}, 'faults': 0, 'throws': 0, 'unlocked': None}
     owner = None
     opidx = {}
     cur = {}
@@ -111,6 +145,8 @@ def _scan(case, lines):
             owner = None
         elif k == K['FAULT']:
             obs['faults'] += 1
+            if v == 5 and obs['unlocked'] is None:
+                obs['unlocked'] = 'line %d: thread %d accesses ElementsToBeDestroyed without holding destructionLock' % (i, t)
         elif k == K['THROW']:
             obs['throws'] += 1
         elif k == K['CALL']:
@@ -136,6 +172,9 @@ def _scan(case, lines):
                 if hascb and nthrow == 0 and top in (DESTROY, DESTROY_DELAY) and obs['cb'].get(oid, 0) != 1:
                     obs['bad'].append('line %d: object %d reaped by destroyObjects with %d callback calls before its destructor'
                                       % (i, oid, obs['cb'].get(oid, 0)))
+                elif strict and obs['cb'].get(oid, 0) != 1:
+                    obs['bad'].append('line %d: object %d (sole owner: the container) destroyed with %d callback calls: it was not '
+                                      'reaped by a sweep' % (i, oid, obs['cb'].get(oid, 0)))
     return obs
 
 
@@ -231,6 +270,12 @@ def mon_op_unlocked(case, lines):
     return None
 
 
-MONITORS = {'op_unlocked': mon_op_unlocked, 'destroyed_twice': mon_destroyed_twice, 'destroyed_while_owned': mon_destroyed_while_owned,
+def mon_unlocked_access(case, lines):
+    """lockset rule (harness/delayeddestructor_extra.hpp): between construction and the start of ~DelayedDestructor the
+    vector ElementsToBeDestroyed is touched only by the thread that owns destructionLock"""
+    return _scan(case, lines)['unlocked']
+
+
+MONITORS = {'unlocked_access': mon_unlocked_access, 'op_unlocked': mon_op_unlocked, 'destroyed_twice': mon_destroyed_twice, 'destroyed_while_owned': mon_destroyed_while_owned,
             'user_code_under_lock': mon_user_code_under_lock, 'callback': mon_callback, 'ledger': mon_ledger,
             'progress': mon_progress}
